@@ -768,6 +768,14 @@ hl!(k_translate_owned_4x4_m1_3, translate_owned, 4, 4, 16, 1, 3);
 hl!(k_translate_owned_3x4_m1_2, translate_owned, 3, 4, 12, 1, 2);
 hl!(k_translate_owned_3x4_m2_2, translate_owned, 3, 4, 12, 2, 2);
 hl!(k_translate_owned_3x4_m1_0, translate_owned, 3, 4, 12, 1, 0);
+// three and four row cycles (gcd(R, R-mr) >= 3): the outer loop must visit every base row
+hl!(k_translate_owned_1x6_m0_3, translate_owned, 1, 6, 6, 0, 3);
+hl!(k_translate_owned_2x6_m1_3, translate_owned, 2, 6, 12, 1, 3);
+hl!(k_translate_owned_1x6_m0_2, translate_owned, 1, 6, 6, 0, 2);
+hl!(k_translate_owned_1x6_m0_4, translate_owned, 1, 6, 6, 0, 4);
+hl!(k_translate_owned_1x8_m0_4, translate_owned, 1, 8, 8, 0, 4);
+hl!(k_translate_owned_1x9_m0_3, translate_owned, 1, 9, 9, 0, 3);
+hl!(k_translate_owned_1x9_m0_6, translate_owned, 1, 9, 9, 0, 6);
 hp!(k_translate_bad_2x2_m3_0, translate_bad, 2, 2, 4, 3, 0);
 hp!(k_translate_bad_2x2_m0_3, translate_bad, 2, 2, 4, 0, 3);
 hp!(k_translate_bad_2x2_m3_1, translate_bad, 2, 2, 4, 3, 1);
